@@ -1150,16 +1150,25 @@ def hash_args_eval(
             var_param_name = param.name
             break
 
+    # Only parameters declared before a variadic parameter can be passed positionally.
+    positional_param_names = [
+        param.name
+        for param in sig.parameters.values()
+        if param.kind in (inspect.Parameter.POSITIONAL_ONLY, inspect.Parameter.POSITIONAL_OR_KEYWORD)
+    ]
+
     # Filter args to remove config_args.
     args2 = [
         arg_value
-        for arg_name, arg_value in zip(sig.parameters, args)
+        for arg_name, arg_value in zip(positional_param_names, args)
         if keep_arg(arg_name, arg_value)
     ]
 
     # Additional arguments are assumed to be variadic arguments.
     args2.extend(
-        arg_value for arg_value in args[len(sig.parameters) :] if var_param_name not in config_args
+        arg_value
+        for arg_value in args[len(positional_param_names) :]
+        if var_param_name not in config_args
     )
 
     # Filter kwargs.
